@@ -10,7 +10,7 @@
    the solvers' backward error and float rounding of the assembly are outside the proof. *)
 From Coq Require Import ZArith List Bool Lia String.
 From PB Require Import lib.SumZ lib.PySlice lib.Arr lib.Loop lib.LoopProofs C11.DtD C11.Table gen.GenBands
-                       C11.Banded C11.History C06.Model C06.Proofs C06.Model2D C06.Proofs2D C06.Vec gen.GenC06Vec C06.VecProofs.
+                       C11.Banded C11.History C06.Model C06.Proofs C06.Model2D C06.Proofs2D C06.Vec gen.GenC06Vec C06.VecProofs C06.Order gen.GenC06Order C06.OrderProofs.
 Import ListNotations.
 Open Scope Z_scope.
 
@@ -230,6 +230,43 @@ Theorem C06_2d_asls_system_logical : forall (M N : nat) (lr lc : Z) (dr dc : nat
         c2_rhs k (i * Z.of_nat N + j) = W i j * Y i j) Wl cs.
 Proof. exact asls2_logical. Qed.
 Print Assumptions C06_2d_asls_system_logical.
+
+(* ---------------- the order convention (C06/Order.v): the documented systems are stated for the data as supplied --
+   weight_i / alpha_i belong to data point i as supplied; the x-sorted arrays the system is assembled from are the
+   GATHERS a[sort_order] of the supplied arrays.  The uses of the sort order in the Whittaker hosts are read off the
+   current source on every run (gen/GenC06Order.v); a scatter (assignment through the sort order) is refused. *)
+Theorem C06_order_convention_aspls : forall (N d : nat) (lam : Z) (w al y s : Z -> Z) (k j : Z),
+  doc_aspls N d lam (gather w s) (gather al s) k j = diagm (fun k => w (s k)) k j + lam * al (s k) * DtD d N k j /\
+  mulv (gather w s) (gather y s) k = w (s k) * y (s k).
+Proof. exact aspls_order_convention. Qed.
+Print Assumptions C06_order_convention_aspls.
+
+Theorem C06_scatter_is_inverse_gather : forall (n : Z) (s sinv a : Z -> Z) (k : Z),
+  inverse_on n s sinv -> 0 <= k < n -> scatter a sinv (s k) = a k.
+Proof. exact scatter_spec. Qed.
+Print Assumptions C06_scatter_is_inverse_gather.
+
+(* scatter = gather for involutions (sorted or exactly reversed x) ... *)
+Theorem C06_scatter_involution : forall (n : Z) (s a : Z -> Z), inverse_on n s s ->
+  forall k, 0 <= k < n -> scatter a s k = gather a s k.
+Proof. exact scatter_involution. Qed.
+Print Assumptions C06_scatter_involution.
+
+(* ... and not otherwise: a rotation of three points *)
+Theorem C06_scatter_refuted :
+  exists (s sinv a : Z -> Z) k, inverse_on 3 s sinv /\ 0 <= k < 3 /\ scatter a sinv k <> gather a s k.
+Proof. exact scatter_refuted. Qed.
+Print Assumptions C06_scatter_refuted.
+
+Theorem C06_order_sites_sound : forall (l : list osite) (req : list (string * string * string)), ocheck l req = true ->
+  (forall s, In s l -> o_kind s = Gather) /\ (forall r, In r req -> exists s, In s l /\ is_osite r s = true).
+Proof. exact ocheck_sound. Qed.
+Print Assumptions C06_order_sites_sound.
+
+(* pinned source: the sort-order uses generated from the current tree are all gathers and the required ones exist *)
+Theorem C06_order_sites_pinned : ocheck GenC06Order.osites required = true.
+Proof. exact osites_checked. Qed.
+Print Assumptions C06_order_sites_pinned.
 
 (* non-vacuity: concrete instances (pentapy and LAPACK layouts) evaluate to calls that denote the
    documented matrices; the hypotheses of C06_returned_pair are satisfiable and a run converges *)
